@@ -434,6 +434,20 @@ Theorem C13_gen_to_str : forall r, gen_to_str r = to_str r.
 Proof. exact gen_to_str_spec. Qed.
 Print Assumptions C13_gen_to_str.
 
+(* _parse_date: parser.parse with OverflowError turned into ValueError (the compact date forms of the
+   model never overflow) *)
+Theorem C13_gen_parse_date : forall ig x, gen_parse_date ig x = g_parse ig x.
+Proof. exact gen_parse_date_spec. Qed.
+Print Assumptions C13_gen_parse_date.
+
+(* _parse_date_value: the parameter loop (TZID= looked up in the names found by the TZID regex, KeyError
+   skipped, the zone lookup, VALUE= once) and the loop over the comma separated dates (a zone on the
+   line and a zone in the date text together are a ValueError) *)
+Theorem C13_gen_parse_date_value : forall o names v parms,
+  gen_parse_date_value o names v parms = g_of_res (parse_date_value o names v parms).
+Proof. exact gen_parse_date_value_spec. Qed.
+Print Assumptions C13_gen_parse_date_value.
+
 (* _parse_rfc as a whole: compatible / forceset / unfold flags, the "empty string" test, the unfold
    loop (recognised verbatim, = unfold_lines o splitlines) or split(), the TZID regex (recognised
    verbatim, = tzid_findall), upper-casing, the single-rule shortcut, the property loop over the
